@@ -32,3 +32,13 @@ package validators
 //@ func getParamSchemaNameOrFallback props C10,C14
 //@ requires param.Annotations != nil
 //@ ensures true
+
+//@ func CommonValidator.getDiagnosticForAttributeValue props C18,C10,C14
+//@ requires g != nil && g.holder != nil
+//@ ensures result.Severity == severity && result.Code == string(code) && result.Message == message && result.FilePath == g.holder.fileName && result.Range.StartCol <= result.Range.EndCol || result.Severity == severity && result.Code == string(code) && result.Message == message && result.FilePath == g.holder.fileName && result.Range == attribute.Comment.Range()
+
+// @Method must name one of the verbs gleece can route (exact, upper-case spelling: nothing downstream normalises it)
+//@ func CommonValidator.validateMethodAttribute props C10,C14
+//@ requires g != nil && g.holder != nil && definitions.verbTablesInit()
+//@ ensures iff: (result == nil) == definitions.routeVerb(attribute.Value)
+//@ ensures sev: implies(result != nil, result.Severity == diagnostics.DiagnosticError && result.Code == ite(definitions.knownVerb(attribute.Value), string(diagnostics.DiagFeatureUnsupported), string(diagnostics.DiagAnnotationValueInvalid)))
